@@ -557,9 +557,11 @@ const KWARGS: [&str; 18] = [
     "precision", "method", "fill_with", "start", "sep", "maxsplit", "chars", "count",
 ];
 
-const FORMATS: [&str; 14] = [
+const FORMATS: [&str; 22] = [
     "%d", "%5d", "%-5d", "%05.2f", "%s", "%r", "%x", "%c", "%%", "%1000000000000d", "%.1000000000000f", "%*d",
     "%(a)s", "%",
+    // multi-byte characters in every syntactic position of a format spec
+    "%(\u{e9})s", "%(\u{e9}", "%\u{e9}", "%5\u{e9}", "%.\u{e9}f", "\u{1F600}%(\u{1F600}k)d\u{e9}", "%(a)\u{e9}", "%-\u{df}d",
 ];
 
 fn grid_sources(tier: Tier) -> Vec<String> {
@@ -645,6 +647,16 @@ fn grid_sources(tier: Tier) -> Vec<String> {
         out.push(format!("{{% for x in ll recursive %}}{{{{ loop({a}) }}}}{{% endfor %}}"));
         out.push(format!("{{% set ns = namespace({a}) %}}{{% set ns.k = {} %}}{{{{ ns.k }}}}{{{{ ns }}}}", if a.is_empty() { "1" } else { a.split(',').next().unwrap() }));
     }
+    // many distinct filter / test names in one template (the per-template slot tables are finite):
+    // n unknown names in a branch that never runs, then known ones that do run
+    for n in 40..70usize {
+        let unknown_f: String = (0..n).map(|k| format!("|nofilter{k}")).collect();
+        out.push(format!("{{% if false %}}{{{{ x{unknown_f} }}}}{{% endif %}}{{{{ s|upper }}}}{{{{ s|lower|title|trim }}}}"));
+        let unknown_t: String = (0..n).map(|k| format!("{{{{ x is notest{k} }}}}")).collect();
+        out.push(format!("{{% if false %}}{unknown_t}{{% endif %}}{{{{ i is odd }}}}{{{{ i is even }}}}{{{{ s is string }}}}"));
+        let known: String = filters.iter().cycle().take(n).enumerate().map(|(k, f)| format!("{{% if false %}}{{{{ x|{f}|nofilter{k} }}}}{{% endif %}}")).collect();
+        out.push(format!("{known}{{{{ s|upper }}}}{{{{ l|join(',') }}}}{{{{ i is odd }}}}"));
+    }
     // repetition, formatting, concatenation with boundary counts
     for a in &ARGS[..n1] {
         for subj in ["s", "'ab'", "l", "(1, 2)", "range(3)", "ll", "e", "[]", "()"] {
@@ -660,12 +672,16 @@ fn grid_sources(tier: Tier) -> Vec<String> {
             out.push(format!("{{{{ {subj}[::{a}] }}}}"));
         }
         for fmt in FORMATS {
+            out.push(format!("{{{{ '{fmt}'|format(**{{'\u{e9}': {a}, 'a': 1, '\u{1F600}k': 2}}) }}}}"));
             out.push(format!("{{{{ '{fmt}'|format({a}) }}}}"));
             out.push(format!("{{{{ '{fmt}'|format({a}, {a}) }}}}"));
             out.push(format!("{{{{ '{fmt}' % {a} }}}}"));
             out.push(format!("{{{{ '{fmt}' % ({a}, {a}) }}}}"));
         }
-        for brace in ["{}", "{0}", "{:>5}", "{:>1000000000000}", "{:.1000000000000f}", "{a}", "{0.a}", "{!r}", "{:x}", "{:c}", "{", "}"] {
+        for brace in [
+            "{}", "{0}", "{:>5}", "{:>1000000000000}", "{:.1000000000000f}", "{a}", "{0.a}", "{!r}", "{:x}", "{:c}", "{", "}",
+            "{\u{e9}}", "{\u{e9}", "{:\u{e9}}", "{:\u{e9}>5}", "{0.\u{e9}}", "{0[\u{e9}]}", "{!\u{e9}}", "{:5\u{e9}}", "\u{1F600}{}\u{e9}{",
+        ] {
             out.push(format!("{{{{ '{brace}'.format({a}) }}}}"));
             out.push(format!("{{{{ '{brace}'|format({a}) }}}}"));
         }
@@ -844,14 +860,103 @@ impl Part for Accumulators {
     }
 }
 
-crate::declare_parts!(Render, Grid, Accumulators);
+
+// ------------------------------------------------------------------ loop objects that travel
+
+/// A (recursive) loop object reaching code that does not run where the loop was started: passed to
+/// macros of the same and of an imported template, closed over, called from included templates,
+/// blocks, call blocks, filters; kept in a variable past the end of its loop.
+pub struct LoopFlows;
+
+fn loop_flow_cases() -> Vec<RenderCase> {
+    let call_forms = ["loop(x) if x is sequence else x", "loop(x)", "loop()", "loop([x])", "loop(x, x)"];
+    let data = ["ll", "[[1, [2]], [3]]", "[1]", "m", "'ab'"];
+    let mut sources: Vec<(String, Vec<(String, String)>)> = vec![];
+    for d in data {
+        for rec in ["recursive ", ""] {
+            for cf in call_forms {
+                let lv = cf.replace("loop(", "l(");
+                let ov = cf.replace("loop(", "outer(");
+                let c = |s: &str| s.to_string();
+                // where the call sits
+                sources.push((format!("{{% for x in {d} {rec}%}}[{{{{ {cf} }}}}]{{% endfor %}}"), vec![]));
+                sources.push((format!("{{% for x in {d} {rec}%}}{{% block item scoped %}}[{{{{ {cf} }}}}]{{% endblock %}}{{% endfor %}}"), vec![]));
+                sources.push((format!("{{% for x in {d} {rec}%}}{{% include 'a.txt' %}}{{% endfor %}}"), vec![(c("a.txt"), format!("<{{{{ {cf} }}}}>"))]));
+                sources.push((format!("{{% for x in {d} {rec}%}}{{% macro mm() %}}{{{{ {cf} }}}}{{% endmacro %}}{{{{ mm() }}}}{{% endfor %}}|after"), vec![]));
+                sources.push((format!("{{% macro w() %}}({{{{ caller() }}}}){{% endmacro %}}{{% for x in {d} {rec}%}}{{% call w() %}}{{{{ {cf} }}}}{{% endcall %}}{{% endfor %}}|after"), vec![]));
+                sources.push((format!("{{% macro mm(l, x) %}}[{{{{ {lv} }}}}]{{% endmacro %}}{{% for x in {d} {rec}%}}{{{{ mm(loop, x) }}}}{{% endfor %}}|after"), vec![]));
+                sources.push((
+                    format!("{{% from 'a.txt' import mm %}}{{% for x in {d} {rec}%}}{{{{ mm(loop, x) }}}}{{% endfor %}}|after"),
+                    vec![(c("a.txt"), format!("{{% macro mm(l, x) %}}[{{{{ {lv} }}}}{{% for q in [1, 2] %}}{{{{ q }}}}{{% endfor %}}{{{{ [1, 2]|join(',') }}}}]{{% endmacro %}}"))],
+                ));
+                sources.push((
+                    format!("{{% import 'a.txt' as lib %}}{{% for x in {d} {rec}%}}{{{{ lib.mm(loop, x) }}}}{{% endfor %}}|after"),
+                    vec![(c("a.txt"), format!("{{% macro mm(l, x) %}}{{% for q in [1] %}}[{{{{ {lv} }}}}]{{% endfor %}}{{% endmacro %}}"))],
+                ));
+                sources.push((format!("{{% for x in {d} {rec}%}}{{% set outer = loop %}}{{% for y in [1] %}}{{{{ {ov} }}}}{{% endfor %}}{{% endfor %}}"), vec![]));
+                sources.push((format!("{{% set ns = namespace(l=none) %}}{{% for x in {d} {rec}%}}{{% set ns.l = loop %}}{{% endfor %}}{{% set l = ns.l %}}{{% set x = [1] %}}[{{{{ {lv} }}}}]{{{{ ns.l.index }}}}{{{{ ns.l.cycle(1, 2) }}}}{{{{ ns.l.changed(1) }}}}"), vec![]));
+                sources.push((format!("{{% for x in {d} {rec}%}}{{{{ [loop]|map('string')|list }}}}{{{{ loop|list }}}}{{{{ {{'k': loop}}|tojson }}}}{{{{ loop is callable }}}}{{% set l = loop %}}{{% filter upper %}}{{{{ {lv} }}}}{{% endfilter %}}{{% endfor %}}"), vec![]));
+                sources.push((
+                    format!("{{% extends 'a.txt' %}}{{% block body %}}{{% for x in {d} {rec}%}}{{{{ super() }}}}{{{{ {cf} }}}}{{% endfor %}}{{% endblock %}}"),
+                    vec![(c("a.txt"), format!("[{{% block body %}}{{{{ {cf} }}}}{{% endblock %}}]"))],
+                ));
+            }
+        }
+    }
+    sources
+        .into_iter()
+        .enumerate()
+        .map(|(i, (source, companions))| RenderCase {
+            main_name: "main.txt".into(),
+            source,
+            companions,
+            ctx: None,
+            undefined: (i % 4) as u8,
+            debug: i % 2 == 0,
+            stack_kib: if i % 3 == 0 { 2048 } else { 8192 },
+            fuel: Some(100_000),
+            as_expression: false,
+        })
+        .collect()
+}
+
+impl Part for LoopFlows {
+    type Case = RenderCase;
+    const NAME: &'static str = "loop_object_flows";
+
+    fn strategy(_tier: Tier) -> BoxedStrategy<RenderCase> {
+        let all = loop_flow_cases();
+        (0..all.len()).prop_map(move |i| all[i].clone()).boxed()
+    }
+
+    fn enumeration(_tier: Tier) -> Vec<RenderCase> {
+        loop_flow_cases()
+    }
+
+    fn check(c: &RenderCase) -> Verdict {
+        let mut v = Render::check(c);
+        v.labels.clear();
+        v.nontrivial = true;
+        v
+    }
+
+    fn show(c: &RenderCase) -> serde_json::Value {
+        serde_json::json!({"source": c.source, "companions": c.companions})
+    }
+
+    fn shrink_candidates(c: &RenderCase) -> Vec<RenderCase> {
+        Render::shrink_candidates(c)
+    }
+}
+
+crate::declare_parts!(Render, Grid, Accumulators, LoopFlows);
 
 pub fn replay_any(ctx: &mut Ctx, rf: &ReplayFile) -> bool {
-    ctx.replay_isolated::<Render>(rf) || ctx.replay_isolated::<Grid>(rf) || ctx.replay_isolated::<Accumulators>(rf) || replay(ctx, rf)
+    ctx.replay_isolated::<Render>(rf) || ctx.replay_isolated::<Grid>(rf) || ctx.replay_isolated::<Accumulators>(rf) || ctx.replay_isolated::<LoopFlows>(rf) || replay(ctx, rf)
 }
 
 pub fn run(ctx: &mut Ctx) {
-    ctx.rule = "free-mode templates from a grammar over every statement and expression kind, every built-in filter/test/function/loop method with boundary arguments (0, +-1, 2^31, 2^63, 2^64, 2^127, 10^5+1, 2001 ...), companions a.txt/b.html/c.txt generated the same way (include/import/extends incl. cycles), 15% random character-level mutations (delete/insert delimiter/truncate), unparenthesised operator/postfix/elif ladders and statement nestings up to length 180, contexts of none/bool/int/float/string/list/map; run in worker processes of the debug (opt-level 0, overflow checks) and release builds on 2 MiB and 8 MiB threads; every returned error is formatted in all forms; part accumulators grows a namespace attribute over 6 000 - 120 000 loop steps with 15 step expressions (prepend/append/concatenate/chain/reverse/merge) and consumes it in 8 ways. Oracle: the worker survives and no panic is caught. Non-trivial: the template loaded (the VM ran) or a syntax error was reported beyond line 0 of a source longer than 12 bytes. Distinct by case.".into();
+    ctx.rule = "free-mode templates from a grammar over every statement and expression kind, every built-in filter/test/function/loop method with boundary arguments (0, +-1, 2^31, 2^63, 2^64, 2^127, 10^5+1, 2001 ...), companions a.txt/b.html/c.txt generated the same way (include/import/extends incl. cycles), 15% random character-level mutations (delete/insert delimiter/truncate), unparenthesised operator/postfix/elif ladders and statement nestings up to length 180, contexts of none/bool/int/float/string/list/map; run in worker processes of the debug (opt-level 0, overflow checks) and release builds on 2 MiB and 8 MiB threads; every returned error is formatted in all forms; part accumulators grows a namespace attribute over 6 000 - 120 000 loop steps with 15 step expressions (prepend/append/concatenate/chain/reverse/merge) and consumes it in 8 ways; part loop_object_flows enumerates 600 programs in which a (recursive) loop object is called from a block, an included template, a closure, a call block, a macro of the same and of an imported template, an inner loop, a filter block, or after its loop has ended. Oracle: the worker survives and no panic is caught. Non-trivial: the template loaded (the VM ran) or a syntax error was reported beyond line 0 of a source longer than 12 bytes. Distinct by case.".into();
     ctx.assumptions = vec![
         "worker address space is limited to 6 GiB so template-chosen allocation sizes fail fast; a watchdog hit (no progress for 60 s) is counted as inconclusive, not as a violation".into(),
         "ladder lengths are capped (120/180) so that the listed deep-recursion finding does not end every campaign; its witness is run separately".into(),
@@ -863,6 +968,8 @@ pub fn run(ctx: &mut Ctx) {
     }
     ctx.run_enum_isolated::<Grid>("MJV_DBG", "debug", 30);
     ctx.run_enum_isolated::<Grid>("MJV_REL", "release", 30);
+    ctx.run_enum_isolated::<LoopFlows>("MJV_DBG", "debug", 30);
+    ctx.run_enum_isolated::<LoopFlows>("MJV_REL", "release", 30);
     ctx.run_enum_isolated::<Accumulators>("MJV_DBG", "debug", 120);
     ctx.run_enum_isolated::<Accumulators>("MJV_REL", "release", 120);
     ctx.run_part_isolated::<Render>("MJV_DBG", "debug", t.pick(60_000, 1_000_000), 30);
